@@ -266,7 +266,7 @@ func runIOLine(c *Ctx, t []string) {
 }
 
 var ioStacks = []string{"mem", "bp:" + hx([]byte("/d")) + "(mem)", "cow(mem,mem)", "cache:0(mem,mem)"}
-var ioSizes = []int{0, 1, 511, 512, 513, 4096, 40000, 70000}
+var c17bSizes = []int{0, 1, 511, 512, 513, 4096, 40000, 70000}
 
 func hp(s string) string { return hx([]byte(s)) }
 
@@ -307,7 +307,7 @@ func genC17b(c *Ctx) {
 	}
 	// (1) the grid: every stack x every size x the three calls, parent present / missing
 	for _, st := range ioStacks {
-		for _, size := range ioSizes {
+		for _, size := range c17bSizes {
 			for _, missing := range []bool{false, true} {
 				setup, path := "d="+hp("/a"), "/a/f.bin"
 				if missing {
@@ -370,5 +370,5 @@ func genC17b(c *Ctx) {
 		}
 		ioCase(c, kind, id("r"), st, setup, hp(Pick(r, names)), payload(size), last)
 	}
-	c.Extra["c17b_grid"] = fmt.Sprintf("stacks %v x sizes %v x {wfile,wreader,swreader} x {parent present, parent missing, path pre-existing}", ioStacks, ioSizes)
+	c.Extra["c17b_grid"] = fmt.Sprintf("stacks %v x sizes %v x {wfile,wreader,swreader} x {parent present, parent missing, path pre-existing}", ioStacks, c17bSizes)
 }
